@@ -51,6 +51,13 @@ def gen(rng, tier):
     spec["due"] = rng.random() < 0.4
     spec["edit"] = sorted(set(rng.randint(0, 6) for _ in range(rng.randint(1, 3))))
     spec["real_dir"] = rng.random() < 0.05
+    if rng.random() < 0.06 and len(spec["model"]["teams"]) >= 2 and not spec["model"].get("assign_style") and not spec["model"].get("worker_copies"):
+        # a worker listed by one team whose team_id names another team (he works on the other team's tasks)
+        tms_ = [tm for tm in spec["model"]["teams"] if tm["workers"]]
+        if tms_:
+            tm_ = rng.choice(tms_)
+            others_ = [x["id"] for x in spec["model"]["teams"] if x is not tm_]
+            rng.choice(tm_["workers"])["team_id"] = rng.choice(others_)
     spec["read_twice"] = rng.random() < 0.15
     if spec["read_twice"] and rng.random() < 0.4:
         spec["cont_rule"] = 4  # the continuation runs under the FIFO rule (which reads the state records of the tasks)
